@@ -208,7 +208,7 @@ CHECKS = {
         parallel=8, slow_rerun_limit=300,
         rule="23 adversarial families (compression-pointer fans in the domain search list, NTP FQDN, FQDN and DHCPv4 option 119; over-long names; unterminated label chains; many short names; relay / IA_TA / IA address / "
              "4RD nesting to maximal depth; minimal-option, ORO, user-class, vendor-class, boot-file-param, vendor sub-option, NTP sub-option floods; DNS address lists; DHCPv4 inside DHCPv6; repeated, maximal and empty "
-             "DHCPv4 options) each built at n in {64,128,256,1k,4k,16k,65507} (ladder: a rung is only run if the extrapolated cost stays under 8 GB), then a seeded hill-climb of 2000 (quick) / 100000 (thorough) "
+             "DHCPv4 options) each built at n in {64,128,256,1k,4k,16k,65507} (ladder: a rung is only run if the extrapolated cost stays under 8 GB), then a seeded hill-climb of 2000 (quick) / 30000 (thorough) "
              "mutation steps per family maximising bytes allocated per input byte. Shape = (family, size class, floor(log2(alloc/n)), accepted); non-trivial iff alloc/n >= 64 or nesting depth >= 8.",
         technique="allocation meter (runtime.MemStats.TotalAlloc/Mallocs deltas around decode and re-encode in a single-goroutine child) + reflective deep-size of the decoded value (address-range union), judged against committed per-family constants and a scaling-law oracle between n and 16n",
         level_text="Oracle 1: alloc(decode)+alloc(re-encode) <= ka*n + kd*n*d + Ca and retained <= kr*n + Cr with constants committed in harness/c09/bounds.go (about 4x the worst measured value per family). "
